@@ -582,6 +582,16 @@ def install(I):
     reg("sum", np_sum)
 
     def np_mean(I_, a, k):
+        from .heap import FilteredArr
+        if isinstance(a[0], FilteredArr):
+            # mean of the kept elements = (sum over kept) / (number kept); numpy gives NaN (0/0) for an empty selection
+            v = a[0]
+            ind = v.indicator()
+            tot = ind.fold("+").at(v.length)
+            cntarr = SymArr(v.length, lambda i: mkint(iite(v.cond(i), 1, 0)), "int")
+            cnt = cntarr.fold("+").at(v.length)
+            I_.trace.setdefault("filtered_mean", []).append((v, ind, cntarr))
+            return xdiv_np(xr(I_.norm_scalar(tot)).asnp(), XR.const(cnt, npk=True))
         arr = to_arr(I_, a[0])
         if arr is None:
             return a[0]
